@@ -206,15 +206,17 @@ Fixpoint list_eqb {X} (eqb : X -> X -> bool) (a b : list X) : bool :=
   | _, _ => false
   end.
 Definition Qeqb (a b : Q) : bool := (Qnum a =? Qnum b)%Z && (Qden a =? Qden b)%positive.
-Definition hashP : Z := 2305843009213693951.   (* 2^61 - 1 *)
-Definition row_hash (r : list Z) : Z := fold_left (fun acc x => ((acc * 1000003 + x) mod hashP)%Z) r 0%Z.
+(* row digest: (sum x_i, sum (i+1) x_i) over exact integers *)
+Definition row_hash (r : list Z) : Z * Z :=
+  let '(_, s1, s2) := fold_left (fun acc x => let '(i, s1, s2) := acc in ((i + 1)%Z, (s1 + x)%Z, (s2 + i * x)%Z))
+                                r (1%Z, 0%Z, 0%Z) in (s1, s2).
 
 (* printed per case: angle planes as rle of rows of rle of reduced rationals;
-   times as rle of (row length, row hash, first, last) *)
+   times as rle over rows of (row length, digest, first, last) *)
 Definition show_angles (a : list (list (list Q))) : list (list (nat * list (nat * Q))) :=
   map (fun plane => rle (list_eqb (fun x y => Nat.eqb (fst x) (fst y) && Qeqb (snd x) (snd y)))
                         (map (fun row => rle Qeqb (map Qred row)) plane)) a.
-Definition show_times (tm : list (list Z)) : list (nat * (nat * Z * Z * Z)) :=
+Definition show_times (tm : list (list Z)) : list (nat * (nat * (Z * Z) * Z * Z)) :=
   map (fun kr => let r := snd kr in (fst kr, (length r, row_hash r, hd 0%Z r, last r 0%Z)))
       (rle (list_eqb Z.eqb) tm).
 
